@@ -53,6 +53,24 @@ func (e *Engine) runFunctionUnit(u *Unit) {
 		env.vars[p.Name()] = v
 		st.inputs = append(st.inputs, InputTerm{Name: p.Name(), Term: v.S})
 	}
+	// closures verified on their own: captured variables are cells with unconstrained (well-typed) contents
+	for _, fv := range fn.FreeVars {
+		pt, ok := fv.Type().Underlying().(*types.Pointer)
+		if !ok {
+			fr.freeVars = append(fr.freeVars, st.freshVal("fv_"+fv.Name(), fv.Type()))
+			continue
+		}
+		r := st.freshVal("fv_"+fv.Name(), fv.Type())
+		st.assume(fmt.Sprintf("(> %s 0)", r.S))
+		st.assumeAllocated(r.S, fv.Type())
+		if _, isStruct := pt.Elem().Underlying().(*types.Struct); !isStruct {
+			r.A = &Addr{Kind: ACell, Base: r.S, RootT: pt.Elem(), T: pt.Elem()}
+			cv := st.load(r.A)
+			cv.T = pt.Elem()
+			env.vars[fv.Name()] = cv
+		}
+		fr.freeVars = append(fr.freeVars, r)
+	}
 	e.describeInputs(st, fn)
 	ct := u.Contract
 	if ct != nil {
@@ -174,6 +192,46 @@ func (e *Engine) locationsOf(env *Env, m string) []location {
 	m = strings.TrimSpace(m)
 	if strings.HasPrefix(m, "heap:") {
 		return []location{{m[5:], "*"}}
+	}
+	if strings.HasPrefix(m, "guarded(") && strings.HasSuffix(m, ")") {
+		ex, err := parseSpecExpr(m[8 : len(m)-1])
+		if err != nil || ex.Op != "sel" {
+			return nil
+		}
+		x := env.eval(ex.Args[0])
+		stt := deref(x.T)
+		mon := e.monitorFor(stt, ex.Name)
+		s, ok := stt.Underlying().(*types.Struct)
+		if mon == nil || !ok {
+			return nil
+		}
+		var out []location
+		for _, g := range mon.Guards {
+			i := findField(s, g)
+			if i < 0 {
+				if ts := e.typeSpecFor(stt); ts != nil {
+					out = append(out, location{"GF!" + ts.Name + "!" + g, x.S})
+				}
+				continue
+			}
+			ft := s.Field(i).Type()
+			hn, hs := fieldHeapName(stt, s, i)
+			out = append(out, location{hn, x.S})
+			fv := sel(env.heap(hn, hs), x.S)
+			switch t := ft.Underlying().(type) {
+			case *types.Map:
+				dn, vn, _, _, _ := mapHeapNames(t)
+				out = append(out, location{dn, fv}, location{vn, fv})
+				if it, ok := t.Elem().Underlying().(*types.Map); ok {
+					idn, ivn, _, _, _ := mapHeapNames(it)
+					out = append(out, location{idn, "*"}, location{ivn, "*"})
+				}
+			case *types.Slice:
+				en, _ := elemHeapName(t.Elem())
+				out = append(out, location{en, "*"})
+			}
+		}
+		return out
 	}
 	elems := strings.HasSuffix(m, "[*]")
 	m = strings.TrimSuffix(m, "[*]")
